@@ -99,6 +99,11 @@ pub fn run(ctx: &mut Ctx) {
         let cases = ctx.cases(1500, 10);
         ctx.forall(&format!("seqs/{}", id.name()), cases, gen::owned_spec_raw(id, max).prop_map(move |s| Case { codec: id, s }), dispatch);
     }
+    for id in ALL_CODECS {
+        let th = ctx.thorough();
+        let cases = ctx.cases(5, 8);
+        ctx.forall(&format!("seqs_long/{}", id.name()), cases, gen::owned_spec_long(id, th).prop_map(move |s| Case { codec: id, s }), dispatch);
+    }
     let types = ktypes();
     for id in ALL_CODECS {
         for st in ALL_ST {
@@ -107,7 +112,7 @@ pub fn run(ctx: &mut Ctx) {
                 continue;
             }
             let m = id.model();
-            let cases = ctx.cases((ks.len() * 12) as u32, 10);
+            let cases = ctx.cases((ks.len() * 30) as u32, 10);
             let s = select(ks).prop_flat_map(move |k| gen::codes_n(m, k).prop_map(move |codes| KCase { codec: id, st, k, codes }));
             ctx.forall(&format!("kmers/{}/{}", id.name(), st.name()), cases, s, kcheck);
         }
